@@ -233,22 +233,16 @@ func checkC20(w *World, r *Report) {
 		// the nil test of the request: in the handler, or in an error-returning helper that is handed the request
 		reqSpec := GuardSpec{Name: "request != nil", IsVal: func(v ssa.Value) bool { return v == ssa.Value(req) },
 			Edges: func(fn *ssa.Function, bind Bind, isVal func(ssa.Value) bool) []Edge {
-				vals := map[ssa.Value]bool{}
-				for _, b := range fn.Blocks {
-					i := blockIf(b)
-					if i == nil {
-						continue
+				return EdgesWhere(fn, func(base ssa.Value) (bool, bool) {
+					bo, ok := base.(*ssa.BinOp)
+					if !ok || (bo.Op != token.EQL && bo.Op != token.NEQ) {
+						return false, false
 					}
-					base, _ := stripNot(i.Cond)
-					if bo, ok := base.(*ssa.BinOp); ok && (bo.Op == token.EQL || bo.Op == token.NEQ) {
-						if isNilConst(bo.Y) && isVal(bo.X) {
-							vals[bo.X] = true
-						} else if isNilConst(bo.X) && isVal(bo.Y) {
-							vals[bo.Y] = true
-						}
+					if (isNilConst(bo.Y) && isVal(bo.X)) || (isNilConst(bo.X) && isVal(bo.Y)) {
+						return bo.Op == token.NEQ, true
 					}
-				}
-				return NilEdges(fn, vals, false)
+					return false, false
+				})
 			}}
 		edges, _ := cg.guardEdgesIn(q, Bind{}, reqSpec, 0)
 		bad := 0
